@@ -323,6 +323,10 @@ class C16(Property):
         cs.append({"kind": "cache_take2", "limit": 1, "ops": [["set", 1, 10], ["take2", 9, 90, 91], ["get", 9], ["get", 1]]})
         cs.append({"kind": "cache_take2", "limit": 2, "ops":
                    [["set", 1, 10], ["set", 2, 20], ["get", 1], ["take2", 9, 90, 91], ["get", 2], ["get", 1], ["get", 9]]})
+        # the constructors refuse a size below 1 (panic at construction, not at first use)
+        for sz in (0, -1):
+            cs.append({"kind": "ring", "size": sz, "ops": []})
+            cs.append({"kind": "window", "size": sz, "interval": 1000, "t0": t0, "ignore": False, "ops": []})
         # minimised past failures (from the mutation self-test)
         d = os.path.join(vlib.ROOT, "corpus", "C16")
         if os.path.isdir(d):
@@ -956,6 +960,12 @@ class C16(Property):
         seen = obs["obs"]
         if k == "lin":
             return self._lin_case(case, obs)
+        if k in ("ring", "window") and case["size"] < 1:
+            # the only acceptable outcome is the constructor's panic
+            refused = (obs.get("err") or "").startswith("panic: ") and "greater than 0" in obs["err"]
+            if k == "ring":
+                return "KRing 1 [] %s" % ("[]" if refused else "[ONum (-424242)]")
+            return "KWindow 1 1 0 false [] %s" % ("[]" if refused else "[[[-424242]]]")
         if obs.get("err"):
             # make the mismatch visible: one extra observation that no model produces
             seen = list(seen) + [["num", -424242]] if k != "window" else list(seen) + [[[-424242]]]
